@@ -121,6 +121,23 @@ func scalarDtypeCheck(a Tensor, b interface{}) error {
 	return nil
 }
 
+// differentLayout reports whether two tensors of one shape lay their elements out differently in memory.
+// By the time the data is prepared, handleFuncOpts has already overwritten the data order flag of a reuse tensor
+// with that of the operands, so the flag cannot tell: the strides are compared.
+func differentLayout(a, b Tensor) bool {
+	as, bs := a.Strides(), b.Strides()
+	shp := a.Shape()
+	if len(as) != len(bs) || len(as) != len(shp) || !shp.Eq(b.Shape()) {
+		return false
+	}
+	for i := range as {
+		if as[i] != bs[i] && shp[i] != 1 {
+			return true
+		}
+	}
+	return false
+}
+
 // prepDataVV prepares the data given the input and reuse tensors. It also retruns several indicators
 //
 // useIter indicates that the iterator methods should be used.
@@ -138,7 +155,8 @@ func prepDataVV(a, b Tensor, reuse Tensor) (dataA, dataB, dataReuse *storage.Hea
 		b.RequiresIterator() ||
 		(reuse != nil && reuse.RequiresIterator()) ||
 		!a.DataOrder().HasSameOrder(b.DataOrder()) ||
-		(reuse != nil && (!a.DataOrder().HasSameOrder(reuse.DataOrder()) || !b.DataOrder().HasSameOrder(reuse.DataOrder())))
+		(reuse != nil && (!a.DataOrder().HasSameOrder(reuse.DataOrder()) || !b.DataOrder().HasSameOrder(reuse.DataOrder()))) ||
+		(reuse != nil && (differentLayout(a, reuse) || differentLayout(b, reuse)))
 	if useIter {
 		ait = a.Iterator()
 		bit = b.Iterator()
@@ -172,7 +190,7 @@ func prepDataVS(a Tensor, b interface{}, reuse Tensor) (dataA, dataB, dataReuse 
 	}
 	useIter = a.RequiresIterator() ||
 		(reuse != nil && reuse.RequiresIterator()) ||
-		(reuse != nil && !reuse.DataOrder().HasSameOrder(a.DataOrder()))
+		(reuse != nil && (!reuse.DataOrder().HasSameOrder(a.DataOrder()) || differentLayout(a, reuse)))
 	if useIter {
 		ait = a.Iterator()
 		if reuse != nil {
@@ -196,7 +214,7 @@ func prepDataSV(a interface{}, b Tensor, reuse Tensor) (dataA, dataB, dataReuse 
 	}
 	useIter = b.RequiresIterator() ||
 		(reuse != nil && reuse.RequiresIterator()) ||
-		(reuse != nil && !reuse.DataOrder().HasSameOrder(b.DataOrder()))
+		(reuse != nil && (!reuse.DataOrder().HasSameOrder(b.DataOrder()) || differentLayout(b, reuse)))
 
 	if useIter {
 		bit = b.Iterator()
@@ -215,7 +233,7 @@ func prepDataUnary(a Tensor, reuse Tensor) (dataA, dataReuse *storage.Header, ai
 	}
 
 	// get iterator
-	if a.RequiresIterator() || (reuse != nil && reuse.RequiresIterator()) {
+	if a.RequiresIterator() || (reuse != nil && (reuse.RequiresIterator() || !reuse.DataOrder().HasSameOrder(a.DataOrder()) || differentLayout(a, reuse))) {
 		ait = a.Iterator()
 		if reuse != nil {
 			rit = reuse.Iterator()
